@@ -109,6 +109,23 @@ func runC05(c *core.Ctx) {
 		}
 		for _, ret := range core.Returns(fn) {
 			if core.ResultNilness(ret, errIdx) == core.NonNil {
+				// the commit's own failure is reported together with the link it was asked to commit (`return lnk,
+				// commitFn(lnk)`, or the same spelled out): the error derives from a call that was given that very link
+				commitFailure := false
+				if errIdx < len(ret.Results) && len(ret.Results) > 0 {
+					for w := range core.BackSlice(ret.Results[errIdx], core.SliceOpts{Local: true}) {
+						if cl, ok := w.(*ssa.Call); ok {
+							for _, a := range cl.Call.Args {
+								if core.Strip(a) == core.Strip(ret.Results[0]) && !core.IsNilConst(a) {
+									commitFailure = true
+								}
+							}
+						}
+					}
+				}
+				if commitFailure {
+					continue
+				}
 				c.Check(core.ResultNilness(ret, 0) == core.IsNil, key+"#fail-return-nil-link", p.Pos(ret.Pos()), "failure returns no link", "a failure return carries a link")
 				continue
 			}
